@@ -395,13 +395,18 @@ class Mesh2DTopology:
         """
         if self.topology_key is not None:
             return self.dataset.data_vars[self.topology_key]
-        try:
-            return next(
-                data_array for data_array in self.dataset.data_vars.values()
-                if data_array.attrs.get('cf_role') == 'mesh_topology'
-            )
-        except StopIteration:
+        mesh_variables = [
+            data_array for data_array in self.dataset.data_vars.values()
+            if data_array.attrs.get('cf_role') == 'mesh_topology'
+        ]
+        if not mesh_variables:
             raise ValueError("No mesh variable found")
+        # A dataset can hold more than one mesh, such as a 1D network
+        # next to the 2D mesh. This class handles the two dimensional one.
+        for data_array in mesh_variables:
+            if data_array.attrs.get('topology_dimension') == 2:
+                return data_array
+        return mesh_variables[0]
 
     @property
     def mesh_attributes(self) -> dict[Hashable, str]:
